@@ -222,3 +222,28 @@ size_t j_print(const jv *v, char *buf, size_t cap)
   if (cap) buf[n < cap ? n : cap - 1] = 0;
   return n < cap ? n : cap - 1;
 }
+
+static int hexv(int ch) { return ch >= '0' && ch <= '9' ? ch - '0' : ch >= 'A' && ch <= 'F' ? ch - 'A' + 10 : ch >= 'a' && ch <= 'f' ? ch - 'a' + 10 : -1; }
+char *j_pct_decode(char *s)
+{
+  if (!s) return s;
+  char *w = s;
+  for (const char *r = s; *r; ) {
+    if (r[0] == '%' && hexv((unsigned char) r[1]) >= 0 && hexv((unsigned char) r[2]) >= 0 && (hexv((unsigned char) r[1]) * 16 + hexv((unsigned char) r[2])) != 0) {
+      *w++ = (char) (hexv((unsigned char) r[1]) * 16 + hexv((unsigned char) r[2])); r += 3;
+    } else *w++ = *r++;
+  }
+  *w = 0;
+  return s;
+}
+char *j_pct_encode(const char *s)
+{
+  size_t n = strlen(s);
+  char *o = malloc(3 * n + 1), *w = o;
+  for (const unsigned char *r = (const unsigned char *) s; *r; r++) {
+    if (*r < 0x20 || *r >= 0x7f || *r == '%') { static const char hx[] = "0123456789ABCDEF"; *w++ = '%'; *w++ = hx[*r >> 4]; *w++ = hx[*r & 15]; }
+    else *w++ = (char) *r;
+  }
+  *w = 0;
+  return o;
+}
